@@ -204,7 +204,7 @@ example : validate .v22 ⟨1, 255, 3, 0, 32, "500".toList⟩ = true ∧
 example : SpecHeader .v20 ⟨1, 0, 1, 0, 40, "ff00aa".toList⟩ :=
   (header_iff .v20 _).mp (by decide +kernel)
 /-- `monotone` is strict somewhere: the pre-sleep notification exists from 2.2 on -/
-example : definedIn .v22 3 32 ∧ ¬ definedIn .v21 3 32 := by decide +kernel
+example : definedIn .v22 3 32 ∧ ¬ definedIn .v21 3 32 := by unfold definedIn; decide +kernel
 /-- a GPS child of 2.0 has a schema (S_CUSTOM's value types plus V_POSITION) -/
 example : (childSchema (Tables.tables .v20) 38).isSome = true ∧
     childValidate .v20 38 [(49, "55.7,13.0,18".toList)] = some true ∧
